@@ -188,7 +188,7 @@ func runC01(raw json.RawMessage, w *Writer) {
 	w.Emit(Ev{"ev": "reset", "class": c.Class})
 	p, err := buildPacket(c.P)
 	if err != nil {
-		w.Emit(Ev{"ev": "skip", "why": "unconstructible: " + err.Error()})
+		w.Emit(Ev{"ev": "skip", "fam": "C01", "why": "unconstructible: " + err.Error()})
 		return
 	}
 	e := Ev{"ev": "roundtrip", "want": want, "in": projPacket(p)}
